@@ -332,8 +332,10 @@ void log_switch(int from, int op, uint64_t off, int to, int cause) {
   Result& r = *g.res;
   r.switches++;
   if (cause == 1 || cause == 2) r.forced_switches++;
-  if (r.n_switches < kMaxSwitches) {
-    Switch& s = g.swlog[r.n_switches++];
+  size_t cap = g.cfg.sw_buf ? g.cfg.sw_cap : kMaxSwitches;
+  if (r.n_switches < cap) {
+    Switch& s = (g.cfg.sw_buf ? g.cfg.sw_buf : g.swlog)[r.n_switches++];
+    if (g.cfg.sw_count) *g.cfg.sw_count = r.n_switches;
     s.task = from;
     s.op = op;
     s.off = off;
@@ -350,8 +352,12 @@ void do_switch(Task* t, int to, int cause) {
   log_switch(t->id, t->cur_op, off, to, cause);
   if (t->in_init > 0) g.res->preempt_in_init++;
   g.cur = to;
+  g.res->cur_task = to;
+  g.res->cur_op = g.tasks[to].cur_op;
   unpark(&g.tasks[to].wake);
   park(&t->wake);
+  g.res->cur_task = t->id;
+  g.res->cur_op = t->cur_op;
 }
 
 // explicit schedule: does the head entry name this exact point of task t?
@@ -427,6 +433,8 @@ void forced_switch(Task* t, int cause) {
     uint64_t off = t->local_events - t->op_start;
     log_switch(t->id, t->cur_op, off, to, cause);
     g.cur = to;
+    g.res->cur_task = to;
+    g.res->cur_op = g.tasks[to].cur_op;
     unpark(&g.tasks[to].wake);
     return;
   }
@@ -859,6 +867,8 @@ void op_begin(int idx) {
   if (!t || !g.active) return;
   t->in_rt = 1;
   t->cur_op = idx;
+  g.res->cur_task = t->id;
+  g.res->cur_op = idx;
   t->op_start = t->local_events + 1;
   yield_point(t, EV_OPB, 0, (uint32_t)idx);
   t->in_rt = 0;
@@ -894,8 +904,9 @@ void run(const Config& cfg, TaskBody body, void* arg, Result& res) {
   g.last_page.cells = nullptr;
   g.cfg = cfg;
   g.res = &res;
-  res.switch_log = g.swlog;
+  res.switch_log = cfg.sw_buf ? cfg.sw_buf : g.swlog;
   res.n_switches = 0;
+  if (cfg.sw_count) *cfg.sw_count = 0;
   g.ntasks = cfg.ntasks;
   g.step = 0;
   g.ops_done = 0;
@@ -1007,6 +1018,8 @@ void run(const Config& cfg, TaskBody body, void* arg, Result& res) {
   log_switch(-1, -1, 0, first, 0);
   res.switches = 0;
   g.cur = first;
+  res.cur_task = first;
+  res.cur_op = -1;
   g.active = 1;
   unpark(&g.tasks[first].wake);
   park(&g.ctl_wake);
